@@ -103,6 +103,8 @@ func render(tpl string, lo layout) []rune {
 			} else {
 				out = append(out, ' ', ' ', ' ', ' ')
 			}
+		case c == '⏎': // a line break that belongs to a text literal: never varied
+			out = append(out, '\n')
 		case c == '↵': // optional line break (followed by one indentation unit)
 			if varied() {
 				out = append(out, '\n')
@@ -232,6 +234,10 @@ var extraSkeletons = []string{
 	"输出_“{}+{#.2}”_%_【A~，~B】",
 	"A#1~‹=›~2\nA#{K}#“键”~‹=›~3\nO之名~‹=›~4\nO之列#1~‹=›~5",
 	"输出_1.5e+3_+_2*10^3_+_-3_+_+4",
+	"（显示~：~「甲⏎乙」~、~丙）",
+	"令总~‹=›~「甲⏎乙」_+_尾",
+	"如果~“甲⏎乙”_‹==›_丙~：\n\t输出_1",
+	"令L~‹=›~【“甲⏎乙”~，~1】",
 }
 
 // H_LayoutInvariance: any allowed layout of a skeleton parses to the tree of
@@ -355,6 +361,24 @@ func H_Mutations() {
 	ok, why := complete(t)
 	zv.Assert(ok, "an accepted program has a complete tree ("+why+")")
 	zv.Reach("accepted")
+}
+
+var headers = []string{"每当 真：", "如果 真：", "如果 假：\n    甲\n否则：", "如果 假：\n    甲\n再如 真：", "以V遍历L：", "遍历L：", "如何F？\n    每当 真："}
+
+// H_EmptyBlocks: a branch / loop header followed by nothing but blank lines,
+// blanks or a comment: rejected, or a tree whose every block has a statement.
+func H_EmptyBlocks() {
+	h := headers[zv.Choose(len(headers))]
+	tail := []string{"", "\n", "\n    ", "\n\t", "\n        ", "\n    \n", "\n    注：空", "\n    // 空", "\r\n    ", "\n    \n乙"}[zv.Choose(10)]
+	t, err, p := parse([]rune(h + tail))
+	zv.Assert(p == nil, "empty block: no panic\n"+h+tail)
+	if err != nil {
+		zv.Reach("rejected")
+		return
+	}
+	zv.Reach("accepted")
+	ok, why := complete(t)
+	zv.Assert(ok, "an accepted program is complete (every branch and loop has a block with at least one statement): "+why+"\n"+h+tail)
 }
 
 // W_Witness: vacuity guard.
